@@ -129,6 +129,24 @@ def real_modes(J, N, norm="noll"):
     return zm.zernikeArray(J, N, norm=norm)
 
 
+def _absm(j):
+    """|m| of Noll index j, written independently of the library (n from the triangular numbers, position k in the row)"""
+    n = 0
+    while (n + 1) * (n + 2) // 2 < j:
+        n += 1
+    k = j - n * (n + 1) // 2 - 1
+    return (n % 2) + 2 * ((k + ((n + 1) % 2)) // 2)
+
+
+def _lst(nmodes):
+    """index list for zernikeArray(list): out of order, then every index grouped by |m| (neighbours with equal |m| and
+    different radial order, e.g. 4, 11), then the same backwards"""
+    if nmodes < 3:
+        return [1]
+    g = sorted(range(1, nmodes + 1), key=lambda j: (_absm(j), j))
+    return [nmodes, 1, 3] + g + g[::-1]
+
+
 def case_modes(ctx, N, nmodes):
     zm, pupil = _zm()
     St.conc_trig_float = True
@@ -140,7 +158,7 @@ def case_modes(ctx, N, nmodes):
     ctx.fallback = lambda m: replay_modes(N, nmodes, m(cs))
     with npx.symbolic(zm, pupil):
         Zs = numpy.asarray(zm.zernikeArray(nmodes, N), dtype=object)
-        lst = [nmodes, 1, 3] if nmodes >= 3 else [1]
+        lst = _lst(nmodes)
         Zl = numpy.asarray(zm.zernikeArray(lst, N), dtype=object)
         Zp = numpy.asarray(zm.zernikeArray(nmodes, N, norm="p2v"), dtype=object)
         Zr = numpy.asarray(zm.zernikeArray(nmodes, N, norm="rms"), dtype=object)
@@ -226,7 +244,7 @@ def replay_modes(N, nmodes, coeffs):
     except Exception as e:
         return True, dict(what="mode generation raises %s: %s" % (type(e).__name__, e))
     want = (Zs * c[:, None, None]).sum(0)
-    lst = [nmodes, 1, 3] if nmodes >= 3 else [1]
+    lst = _lst(nmodes)
     Zl = zm.zernikeArray(lst, N)
     bad = not numpy.allclose(ph, want, atol=1e-9) or not numpy.allclose(Zl, Zs[[j - 1 for j in lst]], atol=1e-12)
     Zp = zm.zernikeArray(nmodes, N, norm="p2v")
@@ -399,12 +417,12 @@ def build_cases(tier):
     for lo, hi in chunks:
         cases.append(("index/j=%d..%d" % (lo, hi), case_index, dict(lo=lo, hi=hi)))
     cases.append(("index/fresh-results", case_index_alias, {}))
-    for N, nm in ([(4, 6), (5, 10)] if tier == "quick" else [(4, 6), (5, 10), (8, 15), (9, 21), (16, 10)]):
+    for N, nm in ([(4, 6), (5, 11)] if tier == "quick" else [(4, 6), (5, 10), (8, 15), (9, 21), (16, 10)]):
         cases.append(("modes/N=%d/modes=%d" % (N, nm), case_modes, dict(N=N, nmodes=nm)))
     for lo, hi in ([(0, 12), (13, 20), (21, 26), (27, 30)] if tier == "quick" else
                    [(0, 12), (13, 20), (21, 26), (27, 30), (31, 36), (37, 42), (43, 48), (49, 54), (55, 60)]):
         cases.append(("radial/n=%d..%d" % (lo, hi), case_radial, dict(nlo=lo, nhi=hi)))
-    for nz in ([2, 3] if tier == "quick" else [2, 3, 4, 5]):
+    for nz in ([2, 3, 4] if tier == "quick" else [2, 3, 4, 5]):
         cases.append(("gamma/nzrad=%d" % nz, case_gamma, dict(nzrad=nz)))
     return cases
 
